@@ -9,10 +9,27 @@
 // Inputs that reach base64_decode are exact-size heap copies (ASan red zone after the last byte).
 // The quick-tier case sets are also written to VF_OUTDIR and replayed through Python's
 // base64 / codecs / urllib by oracles/C11.py.
+//
+// Round 2 additions (see harness/C11.notes.md): every alphabet-passing form (nullptr, omitted argument, the two
+// published pointers, a caller-owned buffer whose CONTENT is switched between calls), both overloads on every
+// decode case, long inputs (every length 0..1100, block-size boundaries up to 2^20+1, unaligned pointers), corruption
+// of long encodings at every position, inputs of 2^31..2^32+4 bytes, wrappers/defaulted arguments of the escapers, all
+// byte values at every position of length-3 strings, wide netloc hosts/ports/defaults under every ambient errno, and
+// HISTORIES: ordered pairs/triples of calls (state carried between calls), calls made in a catch handler, in a
+// destructor during unwinding and on a fresh thread, and multi-function chains judged by their final result.
+#include <errno.h>
+#include <limits.h>
 #include <string.h>
+#include <sys/mman.h>
+#include <sys/wait.h>
+#include <unistd.h>
 
+#include <algorithm>
+#include <functional>
 #include <optional>
+#include <stdexcept>
 #include <string>
+#include <thread>
 #include <vector>
 
 #include "Encoding.hh"
@@ -25,17 +42,38 @@ namespace {
 const char* RFC_STD = "ABCDEFGHIJKLMNOPQRSTUVWXYZabcdefghijklmnopqrstuvwxyz0123456789+/";
 const char* RFC_URL = "ABCDEFGHIJKLMNOPQRSTUVWXYZabcdefghijklmnopqrstuvwxyz0123456789-_";
 
-enum Mode { M_DEFAULT, M_URLSAFE, M_EXPLICIT_STD, NMODES };
-const char* mode_name[NMODES] = {"default alphabet (nullptr)", "URLSAFE_ALPHABET", "DEFAULT_ALPHABET passed explicitly"};
-const char* lib_alphabet(int m) { return m == M_DEFAULT ? nullptr : (m == M_URLSAFE ? phosg::URLSAFE_ALPHABET : phosg::DEFAULT_ALPHABET); }
-const char* rfc_alphabet(int m) { return m == M_URLSAFE ? RFC_URL : RFC_STD; }
+// How the alphabet reaches the library.  M_BUF_*: ONE caller-owned buffer whose content is (re)written to the RFC
+// table right before the call - the same address carries different alphabets over time, as an application that
+// builds its alphabet in a local array does.  The demanded result depends on the table's content only.
+enum Mode { M_DEFAULT, M_URLSAFE, M_EXPLICIT_STD, M_OMITTED, M_BUF_STD, M_BUF_URL, NMODES };
+const char* mode_name[NMODES] = {"default alphabet (nullptr)", "URLSAFE_ALPHABET", "DEFAULT_ALPHABET passed explicitly", "alphabet argument omitted",
+    "caller-owned buffer holding the standard alphabet", "caller-owned buffer holding the URL-safe alphabet"};
+bool is_url(int m) { return m == M_URLSAFE || m == M_BUF_URL; }
+const char* rfc_alphabet(int m) { return is_url(m) ? RFC_URL : RFC_STD; }
+char g_alpha_buf[65];
+const char* lib_alphabet(int m) {
+  switch (m) {
+    case M_URLSAFE: return phosg::URLSAFE_ALPHABET;
+    case M_EXPLICIT_STD: return phosg::DEFAULT_ALPHABET;
+    case M_BUF_STD:
+    case M_BUF_URL:
+      memcpy(g_alpha_buf, rfc_alphabet(m), 65);
+      return g_alpha_buf;
+    default: return nullptr;
+  }
+}
+std::string L_enc_p(const void* p, size_t n, int m) { return m == M_OMITTED ? phosg::base64_encode(p, n) : phosg::base64_encode(p, n, lib_alphabet(m)); }
+std::string L_enc_s(const std::string& x, int m) { return m == M_OMITTED ? phosg::base64_encode(x) : phosg::base64_encode(x, lib_alphabet(m)); }
+std::string L_dec_p(const void* p, size_t n, int m) { return m == M_OMITTED ? phosg::base64_decode(p, n) : phosg::base64_decode(p, n, lib_alphabet(m)); }
+std::string L_dec_s(const std::string& x, int m) { return m == M_OMITTED ? phosg::base64_decode(x) : phosg::base64_decode(x, lib_alphabet(m)); }
 
 std::string ref_encode(const std::string& in, const char* alpha) {
   std::string out;
+  out.reserve(in.size() / 3 * 4 + 4);
   uint32_t acc = 0;
   int bits = 0;
   for (unsigned char c : in) {
-    acc = (acc << 8) | c;
+    acc = ((acc << 8) | c) & 0xFFFFFF;
     bits += 8;
     while (bits >= 6) {
       bits -= 6;
@@ -80,7 +118,7 @@ struct RefDec {
     uint32_t acc = 0;
     int bits = 0;
     for (size_t i = 0; i < n - pad; i++) {
-      acc = (acc << 6) | static_cast<uint32_t>(t[static_cast<unsigned char>(s[i])]);
+      acc = ((acc << 6) | static_cast<uint32_t>(t[static_cast<unsigned char>(s[i])])) & 0xFFFFFF;
       bits += 6;
       if (bits >= 8) {
         bits -= 8;
@@ -120,89 +158,167 @@ std::string all256() {
   return a;
 }
 
-// exact-size heap copy, no terminator
+// description of a possibly long byte string
+std::string brief(const std::string& s) {
+  if (s.size() <= 48) return vf::show(s);
+  return vf::fmt("<%zu bytes: ", s.size()) + vf::show(s.substr(0, 16)) + " ... " + vf::show(s.substr(s.size() - 8)) + ">";
+}
+size_t first_diff(const std::string& a, const std::string& b) {
+  size_t i = 0;
+  while (i < a.size() && i < b.size() && a[i] == b[i]) i++;
+  return i;
+}
+
+// Deterministic fill patterns for inputs longer than the exhaustive range (fixed sequences, not samples):
+// 0: all 00, 1: all FF, 2: the counter 7i+3 (every byte value, every 3-byte lane alignment), 3: a fixed LCG stream,
+// 4: counter starting at `seed`
+std::string pattern(int k, size_t len, unsigned seed = 0) {
+  std::string s(len, 0);
+  uint32_t x = 12345 + seed;
+  for (size_t i = 0; i < len; i++) {
+    switch (k) {
+      case 0: s[i] = 0; break;
+      case 1: s[i] = static_cast<char>(0xFF); break;
+      case 2: s[i] = static_cast<char>((i * 7 + 3) & 0xFF); break;
+      case 3:
+        x = x * 1103515245u + 12345u;
+        s[i] = static_cast<char>((x >> 16) & 0xFF);
+        break;
+      default: s[i] = static_cast<char>((i + seed) & 0xFF); break;
+    }
+  }
+  return s;
+}
+
+// exact-size heap copy (optionally misaligned by `off` bytes), no terminator: the byte after the last one is an
+// ASan red zone
 struct Exact {
+  char* base;
   char* p;
   size_t n;
-  explicit Exact(const std::string& s) : p(static_cast<char*>(malloc(s.size()))), n(s.size()) {
+  explicit Exact(const std::string& s, size_t off = 0) : base(static_cast<char*>(malloc(s.size() + off))), p(base + off), n(s.size()) {
     if (n) memcpy(p, s.data(), n);
   }
   Exact(const Exact&) = delete;
-  ~Exact() { free(p); }
+  ~Exact() { free(base); }
 };
 
 // ---- base64 encode ----------------------------------------------------------------------------
-void encode_case(vf::Run& r, Out& out, const std::string& x, int m, bool to_file) {
+void encode_case(vf::Run& r, Out& out, const std::string& x, int m, bool to_file, size_t off = 0) {
   std::string want = ref_encode(x, rfc_alphabet(m));
-  Exact in(x);
-  std::string got = phosg::base64_encode(in.p, in.n, lib_alphabet(m));
-  std::string got_s = phosg::base64_encode(x, lib_alphabet(m));
-  if (to_file && out.f) fprintf(out.f, "E %d %s %s\n", m, hexs(x).c_str(), got.empty() ? "-" : hexs(got).c_str());
-  if (r.wants_desc()) r.desc(vf::fmt("base64_encode(%s, %s) and decode of the result", vf::show(x).c_str(), mode_name[m]));
+  Exact in(x, off);
+  if (r.wants_desc()) r.desc(vf::fmt("base64_encode(%s, %s) [input pointer misaligned by %zu] and decode of the result", brief(x).c_str(), mode_name[m], off));
+  r.poison_errno();
+  std::string got = L_enc_p(in.p, in.n, m);
+  std::string got_s = L_enc_s(x, m);
+  if (to_file && out.f) fprintf(out.f, "E %d %s %s\n", is_url(m) ? 1 : 0, hexs(x).c_str(), got.empty() ? "-" : hexs(got).c_str());
   r.nontriv();
   if (got != want) {
-    r.fail("base64_encode:wrong-encoding", [&] { return vf::fmt("base64_encode(%s, %s) = %s, RFC 4648 gives %s", vf::show(x).c_str(), mode_name[m], vf::show(got).c_str(), vf::show(want).c_str()); });
+    r.fail("base64_encode:wrong-encoding", [&] { return vf::fmt("base64_encode(%s, %s) = %s, RFC 4648 gives %s (first difference at offset %zu)", brief(x).c_str(), mode_name[m], brief(got).c_str(), brief(want).c_str(), first_diff(got, want)); });
     return;
   }
   if (got_s != want) {
-    r.fail("base64_encode:string-overload", [&] { return vf::fmt("base64_encode(std::string %s, %s) = %s, RFC 4648 gives %s", vf::show(x).c_str(), mode_name[m], vf::show(got_s).c_str(), vf::show(want).c_str()); });
+    r.fail("base64_encode:string-overload", [&] { return vf::fmt("base64_encode(std::string %s, %s) = %s, RFC 4648 gives %s", brief(x).c_str(), mode_name[m], brief(got_s).c_str(), brief(want).c_str()); });
     return;
   }
   std::string back, back_s, what;
-  Exact enc(got);
-  std::string oc = vf::outcome([&] { back = phosg::base64_decode(enc.p, enc.n, lib_alphabet(m)); back_s = phosg::base64_decode(got, lib_alphabet(m)); }, &what);
-  if (oc != "ok") r.fail("base64_decode:rejects-valid", [&] { return vf::fmt("base64_decode(base64_encode(%s)) = decode(%s) with %s threw %s (%s)", vf::show(x).c_str(), vf::show(got).c_str(), mode_name[m], oc.c_str(), what.c_str()); });
-  else if (back != x || back_s != x) r.fail("base64:roundtrip", [&] { return vf::fmt("base64_decode(base64_encode(%s)) with %s = %s / string overload %s", vf::show(x).c_str(), mode_name[m], vf::show(back).c_str(), vf::show(back_s).c_str()); });
+  Exact enc(got, off);
+  std::string oc = vf::outcome([&] { back = L_dec_p(enc.p, enc.n, m); back_s = L_dec_s(got, m); }, &what);
+  if (oc != "ok") r.fail("base64_decode:rejects-valid", [&] { return vf::fmt("base64_decode(base64_encode(%s)) = decode(%s) with %s threw %s (%s)", brief(x).c_str(), brief(got).c_str(), mode_name[m], oc.c_str(), what.c_str()); });
+  else if (back != x || back_s != x) r.fail("base64:roundtrip", [&] { return vf::fmt("base64_decode(base64_encode(%s)) with %s = %s / string overload %s", brief(x).c_str(), mode_name[m], brief(back).c_str(), brief(back_s).c_str()); });
   else r.ok(x.size() % 3 == 0 ? "encode=RFC4648,roundtrip(no padding)" : (x.size() % 3 == 1 ? "encode=RFC4648,roundtrip(==)" : "encode=RFC4648,roundtrip(=)"));
 }
 
 // ---- base64 strict decode ---------------------------------------------------------------------
-void decode_case(vf::Run& r, Out* out, const std::string& s, int m, uint64_t* tally) {
+// Both overloads are called on every case: (pointer, size) on an exact-size copy and std::string.
+void decode_case(vf::Run& r, Out* out, const std::string& s, int m, uint64_t* tally, size_t off = 0) {
   std::string want;
-  Verdict v = REF.decode(s, m == M_URLSAFE, want);
-  Exact in(s);
-  std::string got, what;
-  std::string oc = vf::outcome([&] { got = phosg::base64_decode(in.p, in.n, lib_alphabet(m)); }, &what);
-  if (out && out->f) fprintf(out->f, "D %d %s %s %s\n", m, hexs(s).c_str(), v <= V_OK_NONCANONICAL ? hexs(want).c_str() : "!", oc == "ok" ? hexs(got).c_str() : (oc == "invalid_argument" ? "!" : "?"));
-  if (r.wants_desc()) r.desc(vf::fmt("base64_decode(%s, %s): reference says %s", vf::show(s).c_str(), mode_name[m], verdict_name[v]));
+  Verdict v = REF.decode(s, is_url(m), want);
+  Exact in(s, off);
+  std::string got, what, got_s, what_s;
+  if (r.wants_desc()) r.desc(vf::fmt("base64_decode(%s, %s): reference says %s", brief(s).c_str(), mode_name[m], verdict_name[v]));
+  r.poison_errno();
+  std::string oc = vf::outcome([&] { got = L_dec_p(in.p, in.n, m); }, &what);
+  std::string oc_s = vf::outcome([&] { got_s = L_dec_s(s, m); }, &what_s);
+  if (out && out->f) fprintf(out->f, "D %d %s %s %s\n", is_url(m) ? 1 : 0, hexs(s).c_str(), v <= V_OK_NONCANONICAL ? hexs(want).c_str() : "!", oc == "ok" ? hexs(got).c_str() : (oc == "invalid_argument" ? "!" : "?"));
   r.nontriv();
   auto d = [&] {
-    return vf::fmt("base64_decode(%s, %s): input is %s; library %s", vf::show(s).c_str(), mode_name[m], verdict_name[v],
-        oc == "ok" ? ("returned " + vf::show(got)).c_str() : ("threw " + oc + " (" + what + ")").c_str());
+    return vf::fmt("base64_decode(%s, %s): input is %s; library %s", brief(s).c_str(), mode_name[m], verdict_name[v],
+        oc == "ok" ? ("returned " + brief(got)).c_str() : ("threw " + oc + " (" + what + ")").c_str());
   };
   if (oc != "ok" && oc != "invalid_argument") {
     r.fail("base64_decode:wrong-exception-type", d);
     return;
   }
+  int cls;
   switch (v) {
     case V_OK:
-      if (oc != "ok") r.fail("base64_decode:rejects-valid", d);
-      else if (got != want) r.fail("base64_decode:wrong-value", [&] { return d() + ", expected " + vf::show(want); });
-      else tally[0]++;
+      if (oc != "ok") { r.fail("base64_decode:rejects-valid", d); return; }
+      if (got != want) { r.fail("base64_decode:wrong-value", [&] { return d() + ", expected " + brief(want); }); return; }
+      cls = 0;
       break;
     case V_OK_NONCANONICAL:  // accept/reject is a don't-care; an accepted value must still be the data bits
-      if (oc == "ok" && got != want) r.fail("base64_decode:wrong-value", [&] { return d() + ", expected " + vf::show(want); });
-      else tally[oc == "ok" ? 1 : 2]++;
+      if (oc == "ok" && got != want) { r.fail("base64_decode:wrong-value", [&] { return d() + ", expected " + brief(want); }); return; }
+      cls = oc == "ok" ? 1 : 2;
       break;
     case V_BAD_LENGTH:
-      if (oc == "ok") r.fail("base64_decode:accepts-length-not-multiple-of-4", d);
-      else tally[3]++;
+      if (oc == "ok") { r.fail("base64_decode:accepts-length-not-multiple-of-4", d); return; }
+      cls = 3;
       break;
     case V_BAD_CHAR:
-      if (oc == "ok") r.fail("base64_decode:accepts-non-alphabet-char", d);
-      else tally[4]++;
+      if (oc == "ok") { r.fail("base64_decode:accepts-non-alphabet-char", d); return; }
+      cls = 4;
       break;
     default:
-      if (oc == "ok") r.fail("base64_decode:accepts-misplaced-padding", d);
-      else tally[5]++;
+      if (oc == "ok") { r.fail("base64_decode:accepts-misplaced-padding", d); return; }
+      cls = 5;
       break;
   }
+  // the std::string overload must behave exactly like the (pointer, size) overload just judged
+  if (oc_s != oc || (oc == "ok" && got_s != got)) {
+    r.fail("base64_decode:string-overload-differs", [&] {
+      return d() + "; the std::string overload " + (oc_s == "ok" ? "returned " + brief(got_s) : "threw " + oc_s + " (" + what_s + ")");
+    });
+    return;
+  }
+  tally[cls]++;
 }
 void flush_decode_tally(vf::Run& r, const uint64_t* t) {
   static const char* names[6] = {"decode:well-formed=reference-bytes", "decode:non-canonical-accepted(value checked)", "decode:non-canonical-rejected(dont-care)",
       "decode:bad-length->invalid_argument", "decode:non-alphabet-char->invalid_argument", "decode:misplaced-padding->invalid_argument"};
   for (int i = 0; i < 6; i++)
     if (t[i]) r.hist[names[i]] += t[i];
+}
+
+// ---- rot13 ------------------------------------------------------------------------------------
+std::string ref_rot13(const std::string& s) {
+  std::string want = s;
+  for (auto& ch : want) {
+    unsigned char c = static_cast<unsigned char>(ch);
+    if (c >= 'a' && c <= 'z') ch = static_cast<char>('a' + (c - 'a' + 13) % 26);
+    else if (c >= 'A' && c <= 'Z') ch = static_cast<char>('A' + (c - 'A' + 13) % 26);
+  }
+  return want;
+}
+bool rot13_case(vf::Run& r, Out* out, const std::string& s, size_t off = 0) {
+  Exact in(s, off);
+  if (r.wants_desc()) r.desc(vf::fmt("rot13(%s) [pointer misaligned by %zu]", brief(s).c_str(), off));
+  r.poison_errno();
+  std::string got = phosg::rot13(in.p, in.n);
+  if (out && out->f) fprintf(out->f, "R %s %s\n", hexs(s).c_str(), hexs(got).c_str());
+  r.nontriv();
+  std::string want = ref_rot13(s);
+  if (got != want) {
+    r.fail("rot13:wrong-value", [&] { return vf::fmt("rot13(%s) = %s, expected %s (first difference at offset %zu)", brief(s).c_str(), brief(got).c_str(), brief(want).c_str(), first_diff(got, want)); });
+    return false;
+  }
+  Exact mid(got, off);
+  std::string twice = phosg::rot13(mid.p, mid.n);
+  if (twice != s) {
+    r.fail("rot13:not-involution", [&] { return vf::fmt("rot13(rot13(%s)) = %s", brief(s).c_str(), brief(twice).c_str()); });
+    return false;
+  }
+  return true;
 }
 
 // ---- unescapers -------------------------------------------------------------------------------
@@ -267,55 +383,295 @@ bool url_unreserved(unsigned char c, bool escape_slash) {
   return c == '/' && !escape_slash;
 }
 
-enum Esc { E_URL_KEEP_SLASH, E_URL_ESC_SLASH, E_CTRL_ASCII, E_CTRL_UTF8, E_QUOTES, NESC };
-const char* esc_name[NESC] = {"escape_url(s, false)", "escape_url(s, true)", "escape_controls(s, true)", "escape_controls(s, false)", "escape_quotes(s)"};
-
-void escape_case(vf::Run& r, Out& out, const std::string& s, int e, bool to_file, uint64_t* tally) {
-  std::string got;
+// The first five are the base variants; the last three reach the same code through the defaulted argument and the
+// two inline wrappers of Strings.hh and are judged like their base variant.
+enum Esc { E_URL_KEEP_SLASH, E_URL_ESC_SLASH, E_CTRL_ASCII, E_CTRL_UTF8, E_QUOTES, E_URL_DEFAULTED, E_CTRL_ASCII_WRAPPER, E_CTRL_UTF8_WRAPPER, NESC };
+const int NBASE = 5;
+const char* esc_name[NESC] = {"escape_url(s, false)", "escape_url(s, true)", "escape_controls(s, true)", "escape_controls(s, false)", "escape_quotes(s)",
+    "escape_url(s) [escape_slash defaulted]", "escape_controls_ascii(s)", "escape_controls_utf8(s)"};
+int esc_base(int e) { return e == E_URL_DEFAULTED ? E_URL_KEEP_SLASH : (e == E_CTRL_ASCII_WRAPPER ? E_CTRL_ASCII : (e == E_CTRL_UTF8_WRAPPER ? E_CTRL_UTF8 : e)); }
+std::string lib_escape(const std::string& s, int e) {
   switch (e) {
-    case E_URL_KEEP_SLASH: got = phosg::escape_url(s, false); break;
-    case E_URL_ESC_SLASH: got = phosg::escape_url(s, true); break;
-    case E_CTRL_ASCII: got = phosg::escape_controls(s, true); break;
-    case E_CTRL_UTF8: got = phosg::escape_controls(s, false); break;
-    default: got = phosg::escape_quotes(s); break;
+    case E_URL_KEEP_SLASH: return phosg::escape_url(s, false);
+    case E_URL_ESC_SLASH: return phosg::escape_url(s, true);
+    case E_CTRL_ASCII: return phosg::escape_controls(s, true);
+    case E_CTRL_UTF8: return phosg::escape_controls(s, false);
+    case E_QUOTES: return phosg::escape_quotes(s);
+    case E_URL_DEFAULTED: return phosg::escape_url(s);
+    case E_CTRL_ASCII_WRAPPER: return phosg::escape_controls_ascii(s);
+    default: return phosg::escape_controls_utf8(s);
   }
-  if (to_file && out.f && e <= E_URL_ESC_SLASH) fprintf(out.f, "U %d %s %s\n", e == E_URL_ESC_SLASH ? 1 : 0, hexs(s).c_str(), hexs(got).c_str());
-  if (r.wants_desc()) r.desc(vf::fmt("%s with s = %s", esc_name[e], vf::show(s).c_str()));
-  r.nontriv();
-  auto d = [&] { return vf::fmt("%s with s = %s returned %s", esc_name[e], vf::show(s).c_str(), vf::show(got).c_str()); };
-  if (e <= E_URL_ESC_SLASH) {
-    bool slash = e == E_URL_ESC_SLASH;
+}
+
+// Decides one escaper result.  Returns nullptr when `got` satisfies the statement, else the finding key; `why` gets
+// the reason.
+const char* judge_escape(const std::string& s, int e, const std::string& got, std::string& why) {
+  int b = esc_base(e);
+  if (b <= E_URL_ESC_SLASH) {
+    bool slash = b == E_URL_ESC_SLASH;
     for (size_t i = 0; i < got.size(); i++) {
       unsigned char c = static_cast<unsigned char>(got[i]);
       if (c == '%') {
-        if (i + 2 >= got.size()) { r.fail("escape_url:alphabet", [&] { return d() + ": truncated %XX"; }); return; }
+        if (i + 2 >= got.size()) { why = ": truncated %XX"; return "escape_url:alphabet"; }
         auto ishexu = [](unsigned char h) { return (h >= '0' && h <= '9') || (h >= 'A' && h <= 'F'); };
-        if (!ishexu(got[i + 1]) || !ishexu(got[i + 2])) { r.fail("escape_url:alphabet", [&] { return d() + ": '%' not followed by two upper-case hex digits"; }); return; }
+        if (!ishexu(got[i + 1]) || !ishexu(got[i + 2])) { why = ": '%' not followed by two upper-case hex digits"; return "escape_url:alphabet"; }
         i += 2;
       } else if (!url_unreserved(c, slash)) {
-        r.fail("escape_url:alphabet", [&] { return d() + vf::fmt(": raw byte 0x%02X is outside [A-Za-z0-9-_.~=&%s]", c, slash ? "" : "/"); });
-        return;
+        why = vf::fmt(": raw byte 0x%02X at offset %zu is outside [A-Za-z0-9-_.~=&%s]", c, i, slash ? "" : "/");
+        return "escape_url:alphabet";
       }
     }
     auto back = percent_decode(got);
-    if (!back || *back != s) { r.fail("escape_url:roundtrip", [&] { return d() + ", which percent-decodes to " + (back ? vf::show(*back) : std::string("(malformed)")); }); return; }
-    tally[e]++;
-  } else if (e <= E_CTRL_UTF8) {
-    for (unsigned char c : got) {
-      bool okc = (c >= 0x20 && c <= 0x7E) || (e == E_CTRL_UTF8 && c >= 0x80);
-      if (!okc) { r.fail("escape_controls:alphabet", [&] { return d() + vf::fmt(": raw byte 0x%02X", c); }); return; }
+    if (!back || *back != s) { why = ", which percent-decodes to " + (back ? brief(*back) : std::string("(malformed)")); return "escape_url:roundtrip"; }
+  } else if (b <= E_CTRL_UTF8) {
+    for (size_t i = 0; i < got.size(); i++) {
+      unsigned char c = static_cast<unsigned char>(got[i]);
+      bool okc = (c >= 0x20 && c <= 0x7E) || (b == E_CTRL_UTF8 && c >= 0x80);
+      if (!okc) { why = vf::fmt(": raw byte 0x%02X at offset %zu", c, i); return "escape_controls:alphabet"; }
     }
     auto back = c_unescape(got);
-    if (!back || *back != s) { r.fail("escape_controls:roundtrip", [&] { return d() + ", which unescapes to " + (back ? vf::show(*back) : std::string("(malformed)")); }); return; }
-    tally[e]++;
+    if (!back || *back != s) { why = ", which unescapes to " + (back ? brief(*back) : std::string("(malformed)")); return "escape_controls:roundtrip"; }
   } else {
     for (size_t i = 0; i < got.size(); i++) {
       unsigned char c = static_cast<unsigned char>(got[i]);
-      if (c < 0x20 || c > 0x7E) { r.fail("escape_quotes:non-printable", [&] { return d() + vf::fmt(": raw byte 0x%02X", c); }); return; }
-      if (c == '"' && (i == 0 || got[i - 1] != '\\')) { r.fail("escape_quotes:raw-quote", [&] { return d() + vf::fmt(": quote at offset %zu is not preceded by a backslash", i); }); return; }
+      if (c < 0x20 || c > 0x7E) { why = vf::fmt(": raw byte 0x%02X at offset %zu", c, i); return "escape_quotes:non-printable"; }
+      if (c == '"' && (i == 0 || got[i - 1] != '\\')) { why = vf::fmt(": quote at offset %zu is not preceded by a backslash", i); return "escape_quotes:raw-quote"; }
     }
-    tally[e]++;
   }
+  return nullptr;
+}
+
+void escape_case(vf::Run& r, Out& out, const std::string& s, int e, bool to_file, uint64_t* tally) {
+  if (r.wants_desc()) r.desc(vf::fmt("%s with s = %s", esc_name[e], brief(s).c_str()));
+  r.poison_errno();
+  std::string got = lib_escape(s, e);
+  if (to_file && out.f) {
+    if (e <= E_URL_ESC_SLASH) fprintf(out.f, "U %d %s %s\n", e == E_URL_ESC_SLASH ? 1 : 0, hexs(s).c_str(), hexs(got).c_str());
+    else if (e <= E_CTRL_UTF8) fprintf(out.f, "C %d %s %s\n", e == E_CTRL_ASCII ? 1 : 0, hexs(s).c_str(), hexs(got).c_str());
+  }
+  r.nontriv();
+  std::string why;
+  const char* key = judge_escape(s, e, got, why);
+  if (key) r.fail(key, [&] { return vf::fmt("%s with s = %s returned %s", esc_name[e], brief(s).c_str(), brief(got).c_str()) + why; });
+  else tally[e]++;
+}
+
+// ---- netloc -----------------------------------------------------------------------------------
+struct Dflt {
+  bool omit;
+  int d;
+};
+std::string dflt_name(const Dflt& d) { return d.omit ? std::string("default_port omitted") : vf::fmt("default_port %d", d.d); }
+std::pair<std::string, uint16_t> lib_parse(const std::string& n, const Dflt& d) { return d.omit ? phosg::parse_netloc(n) : phosg::parse_netloc(n, d.d); }
+
+// ---- histories --------------------------------------------------------------------------------
+// One call of a function under test with fixed arguments, reduced to a canonical observable string
+// ("=<value>" or "!<exception class>"), and what the statement demands for it (compare == false: a don't-care call
+// that only serves to leave state behind - errno, caches, scratch buffers).
+struct Item {
+  const char* fam;
+  std::string text;
+  std::function<std::string()> call;
+  std::string want;
+  bool compare;
+};
+std::string canon(const std::string& oc, const std::string& v) { return oc == "ok" ? "=" + v : "!" + oc; }
+
+std::string mixed_bytes(size_t n) {  // letters, quotes, controls, high bytes, slashes in a fixed order
+  static const std::string unit("aZ\"\\/%\n\x01\x7F\x80\xC3\xA9\xFF ~'&=.-_+\t\x00m", 26);
+  std::string s;
+  while (s.size() < n) s += unit;
+  s.resize(n);
+  return s;
+}
+
+void add_decode_items(std::vector<Item>& v, bool reduced) {
+  std::string every(256 + 2, 0);  // all byte values: the encoding contains all 64 characters of either alphabet
+  for (size_t i = 0; i < every.size(); i++) every[i] = static_cast<char>(i);
+  std::vector<std::string> ins = {"", "AAAA", "+/+/", "-_-_", "QQ==", "QUI=", "AA", "A!AA", "=AAA", "AA=A", ref_encode(every, RFC_STD), ref_encode(every, RFC_URL), "AAAA+/+/", "AAA-"};
+  if (reduced) ins.resize(12);
+  static const int modes[4] = {M_DEFAULT, M_URLSAFE, M_BUF_STD, M_BUF_URL};
+  for (int mi = 0; mi < 4; mi++) {
+    for (size_t k = 0; k < ins.size(); k++) {
+      int m = modes[mi];
+      std::string s = ins[k];
+      bool use_str = (k + mi) & 1;
+      std::string want;
+      Verdict vd = REF.decode(s, is_url(m), want);
+      Item it;
+      it.fam = "base64_decode";
+      it.text = vf::fmt("base64_decode(%s%s, %s)", use_str ? "std::string " : "", brief(s).c_str(), mode_name[m]);
+      it.call = [s, m, use_str] {
+        std::string val;
+        std::string oc = vf::outcome([&] {
+          if (use_str) val = L_dec_s(s, m);
+          else {
+            Exact in(s);
+            val = L_dec_p(in.p, in.n, m);
+          }
+        });
+        return canon(oc, val);
+      };
+      it.compare = vd != V_OK_NONCANONICAL;
+      it.want = vd == V_OK ? "=" + want : "!invalid_argument";
+      v.push_back(it);
+    }
+  }
+}
+void add_encode_items(std::vector<Item>& v) {
+  std::vector<std::string> ins = {"", std::string("\xFB", 1), std::string("\xFB\xFF", 2), std::string("\xFB\xFF\xBE", 3), std::string("\x00\x10\x83\x10\x51", 5), pattern(2, 100)};
+  static const int modes[4] = {M_DEFAULT, M_URLSAFE, M_BUF_STD, M_BUF_URL};
+  for (int mi = 0; mi < 4; mi++) {
+    for (size_t k = 0; k < ins.size(); k++) {
+      int m = modes[mi];
+      std::string s = ins[k];
+      bool use_str = (k + mi) & 1;
+      Item it;
+      it.fam = "base64_encode";
+      it.text = vf::fmt("base64_encode(%s%s, %s)", use_str ? "std::string " : "", brief(s).c_str(), mode_name[m]);
+      it.call = [s, m, use_str] {
+        std::string val;
+        std::string oc = vf::outcome([&] {
+          if (use_str) val = L_enc_s(s, m);
+          else {
+            Exact in(s);
+            val = L_enc_p(in.p, in.n, m);
+          }
+        });
+        return canon(oc, val);
+      };
+      it.compare = true;
+      it.want = "=" + ref_encode(s, rfc_alphabet(m));
+      v.push_back(it);
+    }
+  }
+}
+void add_rot13_items(std::vector<Item>& v) {
+  std::vector<std::string> ins = {"", "a", "Nz", "Hello, World!", pattern(4, 300, 0x30), std::string("\xE1\xFA", 2)};
+  for (const auto& s0 : ins) {
+    std::string s = s0;
+    Item it;
+    it.fam = "rot13";
+    it.text = vf::fmt("rot13(%s)", brief(s).c_str());
+    it.call = [s] {
+      std::string val;
+      std::string oc = vf::outcome([&] {
+        Exact in(s);
+        val = phosg::rot13(in.p, in.n);
+      });
+      return canon(oc, val);
+    };
+    it.compare = true;
+    it.want = "=" + ref_rot13(s);
+    v.push_back(it);
+  }
+}
+// Escaper results are not unique under the statement (it fixes the output alphabet and the decoded value, not the
+// spelling), so the canonical observable is the verdict of judge_escape, not the text.
+void add_escape_items(std::vector<Item>& v, bool reduced) {
+  std::vector<std::string> ins = {"", "a", "\"", std::string("\x80", 1), "\n/%", mixed_bytes(120), "\\", std::string("\x7F", 1), "/", std::string("\xC3\xA9\x01/", 4), mixed_bytes(40), std::string("\x00", 1)};
+  if (reduced) ins.resize(6);
+  for (int e = 0; e < NESC; e++) {
+    for (const auto& s0 : ins) {
+      std::string s = s0;
+      Item it;
+      it.fam = esc_base(e) <= E_URL_ESC_SLASH ? "escape_url" : (esc_base(e) <= E_CTRL_UTF8 ? "escape_controls" : "escape_quotes");
+      it.text = vf::fmt("%s with s = %s", esc_name[e], brief(s).c_str());
+      it.call = [s, e] {
+        std::string val, why;
+        std::string oc = vf::outcome([&] { val = lib_escape(s, e); });
+        if (oc != "ok") return "!" + oc;
+        const char* key = judge_escape(s, e, val, why);
+        return key ? std::string("=violates ") + key + ": returned " + val + why : std::string("=conforming");
+      };
+      it.compare = true;
+      it.want = "=conforming";
+      v.push_back(it);
+    }
+  }
+}
+void add_netloc_items(std::vector<Item>& v) {
+  struct HP {
+    std::string h;
+    int p;
+  };
+  std::vector<HP> hps = {{"h", 0}, {"h", 1}, {"h", 80}, {"h", 65535}, {"host.example.com", 8080}, {std::string(255, 'x'), 65534}};
+  std::vector<Dflt> ds = {{true, 0}, {false, 0}, {false, 65535}};
+  for (const auto& hp : hps) {
+    for (const auto& d : ds) {
+      std::string h = hp.h;
+      int p = hp.p;
+      Dflt dd = d;
+      Item it;
+      it.fam = "netloc";
+      it.text = vf::fmt("parse_netloc(render_netloc(%s, %d), %s)", brief(h).c_str(), p, dflt_name(dd).c_str());
+      it.call = [h, p, dd] {
+        std::pair<std::string, uint16_t> b;
+        std::string oc = vf::outcome([&] { b = lib_parse(phosg::render_netloc(h, p), dd); });
+        return canon(oc, b.first + "\x01" + std::to_string(b.second));
+      };
+      it.compare = p != 0 || dd.omit || dd.d == 0;  // port 0 is rendered without a port: the default decides
+      it.want = "=" + h + "\x01" + std::to_string(p);
+      v.push_back(it);
+    }
+  }
+  // raw netloc texts: don't-care results (several are malformed); they are here for what they leave behind
+  // (errno == ERANGE from the number parser, exceptions thrown half-way)
+  std::vector<std::string> raws = {"h:80", "h:65535", "h:65536", "h:99999999999999999999", "h:", "h:x", "h", "h:1e999", "h:1e-999", "h:-1"};
+  for (const auto& n0 : raws) {
+    for (int di = 0; di < 2; di++) {
+      std::string n = n0;
+      Dflt dd = ds[di * 2];
+      Item it;
+      it.fam = "netloc";
+      it.text = vf::fmt("parse_netloc(%s, %s) [result not compared]", vf::show(n).c_str(), dflt_name(dd).c_str());
+      it.call = [n, dd] {
+        std::pair<std::string, uint16_t> b;
+        std::string oc = vf::outcome([&] { b = lib_parse(n, dd); });
+        return canon(oc, b.first + "\x01" + std::to_string(b.second));
+      };
+      it.compare = false;
+      v.push_back(it);
+    }
+  }
+}
+
+// Runs the calls of `h` (indices into items) in order in the current thread; reports the first compared call whose
+// result differs from what the statement demands.
+bool run_history(vf::Run& r, const std::vector<Item>& items, const std::vector<size_t>& h, const char* what_kind) {
+  auto text = [&] {
+    std::string t;
+    for (size_t i = 0; i < h.size(); i++) t += vf::fmt("%s(%zu) %s", i ? "; " : "", i + 1, items[h[i]].text.c_str());
+    return t;
+  };
+  if (r.wants_desc()) r.desc(std::string(what_kind) + ": " + text());
+  r.nontriv();
+  for (size_t i = 0; i < h.size(); i++) {
+    const Item& it = items[h[i]];
+    std::string got = it.call();
+    if (it.compare && got != it.want) {
+      r.fail(std::string(it.fam) + ":" + what_kind, [&] {
+        return vf::fmt("%s: calls in order: %s -- call (%zu) gave %s, demanded %s", what_kind, text().c_str(), i + 1, brief(got).c_str(), brief(it.want).c_str());
+      });
+      return false;
+    }
+  }
+  return true;
+}
+
+// 2^32 + 8 KiB of zero pages (never written except the first 8 bytes): a real object of more than 4 GiB
+const uint8_t* huge_zero_map() {
+  static uint8_t* p = nullptr;
+  static bool tried = false;
+  if (!tried) {
+    tried = true;
+    void* m = mmap(nullptr, (1ull << 32) + 8192, PROT_READ | PROT_WRITE, MAP_PRIVATE | MAP_ANONYMOUS | MAP_NORESERVE, -1, 0);
+    if (m != MAP_FAILED) {
+      p = static_cast<uint8_t*>(m);
+      memcpy(p, "AAAAAAAA", 8);
+    }
+  }
+  return p;
 }
 
 }  // namespace
@@ -334,7 +690,7 @@ VF_SECTION(b64_encode, 16, 16, 120) {
   vf::all_strings(a256, 2, [&](const std::string& x) {
     for (int m = 0; m < NMODES; m++) {
       if (!r.take()) continue;
-      encode_case(r, out, x, m, true);
+      encode_case(r, out, x, m, m < 2);
     }
   });
   // length 3: quick = all strings over 16 lane bytes, thorough = all 2^24
@@ -374,8 +730,142 @@ VF_SECTION(b64_encode, 16, 16, 120) {
       }
     }
   }
-  r.bound = r.thorough() ? "all byte strings of length 0..2 x 3 alphabet modes; ALL 2^24 strings of length 3 x 2 alphabets; all strings of length 4..8 over {00,FF,'a',FB} x 2 alphabets"
-                         : "all byte strings of length 0..2 x 3 alphabet modes; all length-3 strings over 16 lane bytes x 2 alphabets; all strings of length 4..8 over {00,FF,'a',FB} x 2 alphabets";
+  r.bound = r.thorough() ? "all byte strings of length 0..2 x 6 alphabet-passing forms (nullptr, URLSAFE, DEFAULT, omitted, caller buffer std/url); ALL 2^24 strings of length 3 x 2 alphabets; all strings of length 4..8 over {00,FF,'a',FB} x 2 alphabets; both overloads each"
+                         : "all byte strings of length 0..2 x 6 alphabet-passing forms (nullptr, URLSAFE, DEFAULT, omitted, caller buffer std/url); all length-3 strings over 16 lane bytes x 2 alphabets; all strings of length 4..8 over {00,FF,'a',FB} x 2 alphabets; both overloads each";
+}
+
+// Long inputs: every length across the block-count boundaries, unaligned input pointers, corruption of long
+// encodings at every position, and (pointer, size) objects of 2^31 .. 2^32+4 bytes.
+VF_SECTION(b64_long, 16, 16, 180) {
+  Out out;
+  r.note("base64_encode");
+  std::vector<size_t> lens;
+  size_t every_upto = r.thorough() ? 4200 : 1100;
+  for (size_t n = 0; n <= every_upto; n++) lens.push_back(n);
+  for (size_t n : {4095, 4096, 4097, 65535, 65536, 65537, (1 << 20) - 1, 1 << 20, (1 << 20) + 1})
+    if (n > every_upto) lens.push_back(n);
+  if (r.thorough())
+    for (size_t n : {(1 << 24) - 1, 1 << 24, (1 << 24) + 1}) lens.push_back(n);
+  for (size_t n : lens) {
+    for (int k = 0; k < 4; k++) {
+      for (int m = 0; m < (n <= 70 ? (int)NMODES : 2); m++) {
+        for (size_t off = 0; off < 2; off++) {
+          if (!r.take()) continue;
+          encode_case(r, out, pattern(k, n), m, false, off ? 1 + (n % 7) : 0);
+        }
+      }
+    }
+  }
+  r.note("base64_decode");
+  uint64_t tally[6] = {0};
+  // every position of long encodings x {padding, invalid characters, a character private to the other alphabet,
+  // a different valid character}
+  std::vector<size_t> in_lens = {7, 8, 9, 10, 11, 12, 22, 23, 24, 46, 47, 48, 94, 95, 96, 190, 191, 192, 193, 382, 383, 384, 766, 767, 768, 769};
+  for (int m = 0; m < 2; m++) {
+    std::string subst = std::string("=!\x00\x80\xFF\n ", 7) + (m ? "+" : "-") + "AB";
+    for (size_t n : in_lens) {
+      std::string enc = ref_encode(pattern(2, n), rfc_alphabet(m));
+      for (size_t pos = 0; pos < enc.size(); pos++) {
+        char orig = enc[pos];
+        for (char c : subst) {
+          if (!r.take()) continue;
+          enc[pos] = c;
+          decode_case(r, nullptr, enc, m, tally, (pos & 1) ? 3 : 0);
+        }
+        enc[pos] = orig;
+      }
+    }
+    // 64 KiB + one block: positions around every power-of-two block boundary
+    for (size_t n : {49152, 49153, 49154}) {
+      std::string enc = ref_encode(pattern(2, n), rfc_alphabet(m));
+      std::vector<size_t> poss;
+      for (size_t b : {(size_t)0, (size_t)256, (size_t)1024, (size_t)4096, (size_t)16384, (size_t)32768, (size_t)65536, enc.size()})
+        for (size_t d = 0; d < 12; d++) {
+          size_t pos = b + d - (b ? 6 : 0);
+          if (b == enc.size()) pos = enc.size() - 1 - d;
+          if (pos < enc.size()) poss.push_back(pos);
+        }
+      std::sort(poss.begin(), poss.end());
+      poss.erase(std::unique(poss.begin(), poss.end()), poss.end());
+      for (size_t pos : poss) {
+        char orig = enc[pos];
+        for (char c : {'=', '!'}) {
+          if (!r.take()) continue;
+          enc[pos] = c;
+          decode_case(r, nullptr, enc, m, tally);
+        }
+        enc[pos] = orig;
+      }
+    }
+  }
+  flush_decode_tally(r, tally);
+  // objects larger than 2^31 / 2^32 bytes: "AAAAAAAA" followed by NUL bytes.  Every size listed is either not a
+  // multiple of four or has a NUL (outside both alphabets) at offset 8: invalid_argument is demanded, and a
+  // correct decoder reaches that verdict without reading the whole object.
+  r.note("base64_decode(huge)");
+  uint64_t huge_ok = 0;
+  // ONE case (one shard, one process) makes all 24 calls: should a changed decoder try to materialise gigabytes,
+  // only one process at a time does.
+  if (r.take()) {
+    const uint8_t* p = huge_zero_map();
+    if (r.wants_desc()) r.desc("base64_decode(\"AAAAAAAA\" followed by NUL bytes, size) for 12 sizes from 2^31-1 to 2^32+8 x 2 alphabets");
+    r.nontriv();
+    if (!p) {
+      r.exhaustive = false;
+      r.ok("huge: mmap of 4 GiB refused by the kernel (skipped)");
+    } else {
+      // Each call runs in a forked child: a decoder that (legitimately) reserves its output up front may hit the
+      // sanitizer's allocation limit or bad_alloc for a 4 GiB input - resource exhaustion is outside the statement
+      // and is counted, not reported.  Reported: the call RETURNS (accepts), or throws an unrelated exception class.
+      bool all_ok = true;
+      for (uint64_t size : {(1ull << 31) - 1, 1ull << 31, (1ull << 31) + 1, (1ull << 31) + 4, (1ull << 32) - 4, (1ull << 32) - 1, 1ull << 32, (1ull << 32) + 1, (1ull << 32) + 2, (1ull << 32) + 3, (1ull << 32) + 4, (1ull << 32) + 8}) {
+        for (int m = 0; m < 2; m++) {
+          r.beat();
+          int ambient = r.ambient_errno();
+          int st = vf::in_child([&] {
+            errno = ambient;
+            std::string oc = vf::outcome([&] { L_dec_p(p, size, m); });
+            _exit(oc == "invalid_argument" ? 40 : (oc == "ok" ? 41 : ((oc == "bad_alloc" || oc == "length_error") ? 42 : 43)));
+          }, 150);
+          int code = WIFEXITED(st) ? WEXITSTATUS(st) : -1;
+          if (code == 40) huge_ok++;
+          else if (code == 41 || code == 43) {
+            all_ok = false;
+            r.fail(code == 41 ? ((size & 3) ? "base64_decode:accepts-length-not-multiple-of-4" : "base64_decode:accepts-non-alphabet-char") : "base64_decode:wrong-exception-type", [&] {
+              return vf::fmt("base64_decode(\"AAAAAAAA\" followed by NUL bytes, size %llu = 0x%llX, %s): invalid_argument demanded (%s); library %s", (unsigned long long)size, (unsigned long long)size,
+                  mode_name[m], (size & 3) ? "size is not a multiple of 4" : "NUL at offset 8 is outside the alphabet", code == 41 ? "returned a value" : "threw an exception that is neither invalid_argument nor a resource failure");
+            });
+          } else r.counters["decode calls on objects of 2^31-1..2^32+8 bytes ending in resource exhaustion (bad_alloc / allocator limit / timeout; not compared)"]++;
+        }
+      }
+      if (all_ok) r.ok("huge: no (size, alphabet) call accepted its input");
+    }
+  }
+  if (huge_ok) r.counters["decode calls on objects of 2^31-1..2^32+8 bytes -> invalid_argument"] += huge_ok;
+  // the empty byte string given as (nullptr, 0), as vector::data() of an empty vector may be
+  r.note("(nullptr, 0)");
+  if (r.take()) {
+    if (r.wants_desc()) r.desc("base64_encode / base64_decode / rot13 of the empty byte string passed as (nullptr, 0), 6 alphabet-passing forms");
+    r.nontriv();
+    std::string bad;
+    for (int m = 0; m < NMODES && bad.empty(); m++) {
+      std::string e = "?", d = "?", what;
+      r.poison_errno();
+      std::string oc = vf::outcome([&] { e = L_enc_p(nullptr, 0, m); d = L_dec_p(nullptr, 0, m); }, &what);
+      if (oc != "ok" || !e.empty() || !d.empty()) bad = vf::fmt("%s: %s, base64_encode(nullptr, 0) = %s, base64_decode(nullptr, 0) = %s", mode_name[m], oc.c_str(), vf::show(e).c_str(), vf::show(d).c_str());
+    }
+    if (bad.empty()) {
+      std::string t = "?";
+      std::string oc = vf::outcome([&] { t = phosg::rot13(nullptr, 0); });
+      if (oc != "ok" || !t.empty()) bad = vf::fmt("rot13(nullptr, 0): %s, %s", oc.c_str(), vf::show(t).c_str());
+    }
+    if (!bad.empty()) r.fail("empty-input-as-null-pointer", [&] { return "the empty byte string passed as (nullptr, 0) must encode/decode/rotate to the empty string; " + bad; });
+    else r.ok("(nullptr, 0) -> empty result in encode, decode, rot13");
+  }
+  r.bound = vf::fmt("encode+round trip, both overloads, input pointer aligned and misaligned: every length 0..%zu and {4095..4097, 65535..65537, 2^20-1..2^20+1%s} x 4 fill patterns (00, FF, counter 7i+3, fixed LCG stream) x 2 alphabets (6 alphabet-passing forms up to length 70); "
+                    "decode: every position of the encodings of 26 inputs of 7..769 bytes x 10 substitutes (=, !, NUL, 80, FF, LF, space, other alphabet's private character, A, B) and 96 positions around the 2^8..2^16 offsets of three 64 KiB encodings x {=, !}, x 2 alphabets; "
+                    "12 object sizes from 2^31-1 to 2^32+8 x 2 alphabets (one case); the empty string as (nullptr, 0) through encode/decode (6 forms) and rot13 (one case)",
+      every_upto, r.thorough() ? ", 2^24-1..2^24+1" : "");
 }
 
 VF_SECTION(b64_strict4, 8, 8, 120) {
@@ -384,15 +874,15 @@ VF_SECTION(b64_strict4, 8, 8, 120) {
   r.note("base64_decode");
   uint64_t tally[6] = {0};
   std::string R15("ABQz9+/-_=! \x00\x80\xFF", 15);
-  for (int m = 0; m < 2; m++) {
+  for (int m = 0; m < NMODES; m++) {
     // lengths 0..4 (lengths 1..3 are the not-a-multiple-of-4 class), shortest first
     vf::all_strings(R15, 4, [&](const std::string& s) {
       if (!r.take()) return;
-      decode_case(r, &out, s, m, tally);
+      decode_case(r, m < 2 ? &out : nullptr, s, m, tally);
     });
   }
   flush_decode_tally(r, tally);
-  r.bound = "all strings of length 0..4 over the 15 symbols {A,B,Q,z,9,+,/,-,_,=,!,space,NUL,0x80,0xFF} (54241) x {default, URL-safe} alphabet";
+  r.bound = "all strings of length 0..4 over the 15 symbols {A,B,Q,z,9,+,/,-,_,=,!,space,NUL,0x80,0xFF} (54241) x 6 alphabet-passing forms (nullptr, URLSAFE, DEFAULT, omitted, caller buffer std/url) x both overloads";
 }
 
 VF_SECTION(b64_strict8, 16, 16, 120) {
@@ -416,7 +906,7 @@ VF_SECTION(b64_strict8, 16, 16, 120) {
     }
   }
   flush_decode_tally(r, tally);
-  r.bound = "all strings of length 5..8 over {A,Q,=,!,/,-} (6^5+6^6+6^7+6^8 = 2 015 280; the 1 679 616 of length 8 are two-block inputs) x {default, URL-safe} alphabet";
+  r.bound = "all strings of length 5..8 over {A,Q,=,!,/,-} (6^5+6^6+6^7+6^8 = 2 015 280; the 1 679 616 of length 8 are two-block inputs) x {default, URL-safe} alphabet x both overloads";
 }
 
 VF_SECTION(b64_corrupt, 16, 16, 180) {
@@ -448,11 +938,11 @@ VF_SECTION(b64_corrupt, 16, 16, 180) {
     }
   }
   flush_decode_tally(r, tally);
-  r.bound = r.thorough() ? "every single-byte substitution (256 values x every position, the identity included) of the RFC 4648 encoding of every input of length 1..6 over {00,FF,'a',FB} and of length 7..9 over {00,FB} x {default, URL-safe} alphabet"
-                         : "every single-byte substitution (256 values x every position, the identity included) of the RFC 4648 encoding of every input of length 1..4 over {00,FF,'a',FB} and of length 5..6 over {00,FB} x {default, URL-safe} alphabet";
+  r.bound = r.thorough() ? "every single-byte substitution (256 values x every position, the identity included) of the RFC 4648 encoding of every input of length 1..6 over {00,FF,'a',FB} and of length 7..9 over {00,FB} x {default, URL-safe} alphabet x both overloads"
+                         : "every single-byte substitution (256 values x every position, the identity included) of the RFC 4648 encoding of every input of length 1..4 over {00,FF,'a',FB} and of length 5..6 over {00,FB} x {default, URL-safe} alphabet x both overloads";
 }
 
-VF_SECTION(rot13, 4, 4, 120) {
+VF_SECTION(rot13, 4, 16, 120) {
   Out out;
   out.open(r);
   r.note("rot13");
@@ -460,27 +950,46 @@ VF_SECTION(rot13, 4, 4, 120) {
   std::string a256 = all256();
   vf::all_strings(a256, 2, [&](const std::string& s) {
     if (!r.take()) return;
-    Exact in(s);
-    std::string got = phosg::rot13(in.p, in.n);
-    if (out.f) fprintf(out.f, "R %s %s\n", hexs(s).c_str(), hexs(got).c_str());
-    if (r.wants_desc()) r.desc(vf::fmt("rot13(%s)", vf::show(s).c_str()));
-    r.nontriv();
-    std::string want = s;
-    for (auto& ch : want) {
-      unsigned char c = static_cast<unsigned char>(ch);
-      if (c >= 'a' && c <= 'z') ch = static_cast<char>('a' + (c - 'a' + 13) % 26);
-      else if (c >= 'A' && c <= 'Z') ch = static_cast<char>('A' + (c - 'A' + 13) % 26);
-    }
-    if (got != want) {
-      r.fail("rot13:wrong-value", [&] { return vf::fmt("rot13(%s) = %s, expected %s", vf::show(s).c_str(), vf::show(got).c_str(), vf::show(want).c_str()); });
-      return;
-    }
-    std::string twice = phosg::rot13(got.data(), got.size());
-    if (twice != s) r.fail("rot13:not-involution", [&] { return vf::fmt("rot13(rot13(%s)) = %s", vf::show(s).c_str(), vf::show(twice).c_str()); });
-    else okc++;
+    if (rot13_case(r, &out, s)) okc++;
   });
+  // length 3: every letter-range boundary and its neighbours, the same with bit 7 set, NUL and FF (quick);
+  // all 2^24 (thorough)
+  if (r.thorough()) {
+    std::string s(3, 0);
+    for (uint32_t v = 0; v < (1u << 24); v++) {
+      if (!r.take()) continue;
+      s[0] = static_cast<char>(v & 0xFF);
+      s[1] = static_cast<char>((v >> 8) & 0xFF);
+      s[2] = static_cast<char>((v >> 16) & 0xFF);
+      if (rot13_case(r, nullptr, s)) okc++;
+    }
+  } else {
+    std::string b20("@AMNZ[`amnz{\x00\xFF\xC1\xCD\xCE\xDA\xE1\xFA", 20);
+    std::string s(3, 0);
+    for (uint32_t k = 0; k < 20 * 20 * 20; k++) {
+      if (!r.take()) continue;
+      s[0] = b20[k % 20];
+      s[1] = b20[(k / 20) % 20];
+      s[2] = b20[k / 400];
+      if (rot13_case(r, &out, s)) okc++;
+    }
+  }
+  // every length 4..600 and the block boundaries, the 256-value counter started at four phases, pointer
+  // aligned and misaligned
+  std::vector<size_t> lens;
+  for (size_t n = 4; n <= 600; n++) lens.push_back(n);
+  for (size_t n : {4095, 4096, 4097, 65535, 65536, 65537, (1 << 20) + 1}) lens.push_back(n);
+  for (size_t n : lens) {
+    for (unsigned phase : {0x00u, 0x41u, 0x4Eu, 0x61u}) {
+      for (size_t off = 0; off < 2; off++) {
+        if (!r.take()) continue;
+        if (rot13_case(r, n <= 64 ? &out : nullptr, pattern(4, n, phase), off ? 1 + (n % 7) : 0)) okc++;
+      }
+    }
+  }
   r.hist["rot13:letters-rotated,others-unchanged,involution"] += okc;
-  r.bound = "all byte strings of length 0..2 (65 793)";
+  r.bound = r.thorough() ? "all byte strings of length 0..3 (16 843 009); every length 4..600 and {4095..4097, 65535..65537, 2^20+1} of the byte counter at 4 phases, pointer aligned and misaligned"
+                         : "all byte strings of length 0..2 (65 793); all length-3 strings over 20 boundary bytes (@ A M N Z [ ` a m n z {, the letter boundaries with bit 7 set, NUL, FF); every length 4..600 and {4095..4097, 65535..65537, 2^20+1} of the byte counter at 4 phases, pointer aligned and misaligned";
 }
 
 VF_SECTION(escapes, 16, 16, 120) {
@@ -489,13 +998,13 @@ VF_SECTION(escapes, 16, 16, 120) {
   r.note("escape");
   uint64_t tally[NESC] = {0};
   std::string a256 = all256();
+  std::string a12("a4x/%\"\\\n\x00\x7F\x80\xFF", 12);
   for (int e = 0; e < NESC; e++) {
     r.note(esc_name[e]);
     vf::all_strings(a256, 2, [&](const std::string& s) {
       if (!r.take()) return;
       escape_case(r, out, s, e, true, tally);
     });
-    std::string a12("a4x/%\"\\\n\x00\x7F\x80\xFF", 12);
     for (size_t len = 3; len <= 4; len++) {
       uint32_t total = len == 3 ? 12 * 12 * 12 : 12 * 12 * 12 * 12;
       std::string s(len, 0);
@@ -506,12 +1015,56 @@ VF_SECTION(escapes, 16, 16, 120) {
           s[len - 1 - i] = a12[x % 12];
           x /= 12;
         }
-        escape_case(r, out, s, e, true, tally);
+        escape_case(r, out, s, e, e < NBASE, tally);
+      }
+    }
+    // every byte value at every position of a length-3 string, the other two positions over the 12 symbols
+    {
+      std::string s(3, 0);
+      for (size_t pos = 0; pos < 3; pos++) {
+        for (int c = 0; c < 256; c++) {
+          for (uint32_t k = 0; k < 144; k++) {
+            if (!r.take()) continue;
+            s[pos] = static_cast<char>(c);
+            s[(pos + 1) % 3] = a12[k % 12];
+            s[(pos + 2) % 3] = a12[k / 12];
+            escape_case(r, out, s, e, false, tally);
+          }
+        }
+      }
+    }
+    // long inputs: every length 5..300 and the buffer-size boundaries of five fills
+    {
+      std::vector<size_t> lens;
+      for (size_t n = 5; n <= 300; n++) lens.push_back(n);
+      for (size_t n : {1023, 1024, 1025, 4095, 4096, 4097, 65537}) lens.push_back(n);
+      for (size_t n : lens) {
+        for (int k = 0; k < 5; k++) {
+          if (!r.take()) continue;
+          std::string s = k == 0 ? pattern(2, n) : (k == 1 ? std::string(n, '\xFF') : (k == 2 ? std::string(n, '"') : (k == 3 ? std::string(n, '\\') : mixed_bytes(n))));
+          escape_case(r, out, s, e, false, tally);
+        }
       }
     }
   }
-  for (int e = 0; e < NESC; e++) r.hist[std::string(esc_name[e]) + (e == E_QUOTES ? ":printable,no-raw-quote" : ":alphabet-ok,decodes-to-input")] += tally[e];
-  r.bound = "escape_url(slash in {0,1}), escape_controls(non_ascii in {0,1}), escape_quotes: all byte strings of length 0..2 (65 793) + all strings of length 3..4 over {a,4,x,/,%,\",\\,LF,NUL,7F,80,FF} (22 464)";
+  // thorough: ALL 2^24 strings of length 3 through the five base variants
+  if (r.thorough()) {
+    std::string s(3, 0);
+    for (int e = 0; e < NBASE; e++) {
+      r.note(esc_name[e]);
+      for (uint32_t v = 0; v < (1u << 24); v++) {
+        if (!r.take()) continue;
+        s[0] = static_cast<char>(v & 0xFF);
+        s[1] = static_cast<char>((v >> 8) & 0xFF);
+        s[2] = static_cast<char>((v >> 16) & 0xFF);
+        escape_case(r, out, s, e, false, tally);
+      }
+    }
+  }
+  for (int e = 0; e < NESC; e++) r.hist[std::string(esc_name[e]) + (esc_base(e) == E_QUOTES ? ":printable,no-raw-quote" : ":alphabet-ok,decodes-to-input")] += tally[e];
+  r.bound = std::string("escape_url(slash in {0,1,defaulted}), escape_controls(non_ascii in {0,1}) and its two inline wrappers, escape_quotes (8 call forms): all byte strings of length 0..2 (65 793) + all strings of length 3..4 over {a,4,x,/,%,\",\\,LF,NUL,7F,80,FF} (22 464) "
+                        "+ every byte value at every position of a length-3 string with the other two positions over those 12 symbols (110 592) + every length 5..300 and {1023..1025, 4095..4097, 65537} of 5 fills (counter, FF, quote, backslash, mixed)") +
+      (r.thorough() ? " + ALL 2^24 strings of length 3 through the 5 base variants" : "");
 }
 
 VF_SECTION(netloc, 16, 16, 120) {
@@ -551,7 +1104,301 @@ VF_SECTION(netloc, 16, 16, 120) {
   r.hist["netloc:roundtrip(port 0, rendered without port)"] += ok0;
   r.hist["netloc:roundtrip(port 1..65535)"] += okp;
   r.hist["netloc:roundtrip(explicit port beats default 65535)"] += okd;
-  r.bound = "hosts = all strings of length 1..3 over {a . - [ ] space 1} (399, colon-free, non-empty) x all ports 0..65535 with default_port 0; single-character hosts x ports 1..65535 with default_port 65535";
+  r.bound = "hosts = all strings of length 1..3 over {a . - [ ] space 1} (399, colon-free, non-empty) x all ports 0..65535 with default_port 0; single-character hosts x ports 1..65535 with default_port 65535; ambient errno in {0, ERANGE, EINVAL, EINTR} by case index";
+}
+
+// Wide hosts (every byte value but ':', every length 1..255 and beyond), boundary ports, every default_port form,
+// every ambient errno placed before render_netloc or between render_netloc and parse_netloc.
+VF_SECTION(netloc_wide, 16, 16, 120) {
+  r.note("netloc");
+  uint64_t okp = 0, ok0 = 0, okhost = 0, dc = 0;
+  std::string nocolon;
+  for (int c = 0; c < 256; c++)
+    if (c != ':') nocolon += static_cast<char>(c);
+  static const int ports22[] = {0, 1, 2, 9, 10, 11, 99, 100, 101, 255, 256, 999, 1000, 1001, 9999, 10000, 10001, 32767, 32768, 32769, 65534, 65535};
+  static const Dflt dflts[] = {{true, 0}, {false, 0}, {false, 1}, {false, 80}, {false, 65535}, {false, -1}, {false, 65536}, {false, INT_MAX}, {false, INT_MIN}};
+  static const int errnos[] = {0, ERANGE, EINVAL, EINTR, EDOM, EAGAIN, ENOMEM, EOVERFLOW, EILSEQ};
+  // err_at: 0 = engine's per-case errno before render_netloc; 1 = `err` set before render_netloc; 2 = `err` set
+  // between render_netloc and parse_netloc
+  auto one = [&](const std::string& h, int port, const Dflt& d, int err_at, int err) {
+    if (r.wants_desc()) r.desc(vf::fmt("parse_netloc(render_netloc(%s, %d), %s)%s", brief(h).c_str(), port, dflt_name(d).c_str(),
+                            err_at ? vf::fmt(" with errno = %d set %s", err, err_at == 1 ? "before render_netloc" : "between render_netloc and parse_netloc").c_str() : ""));
+    r.nontriv();
+    std::string rendered, what;
+    std::pair<std::string, uint16_t> back;
+    if (err_at == 1) errno = err;
+    std::string oc = vf::outcome([&] {
+      rendered = phosg::render_netloc(h, port);
+      if (err_at == 2) errno = err;
+      back = lib_parse(rendered, d);
+    }, &what);
+    bool port_demanded = port != 0 || d.omit || d.d == 0;  // port 0 is rendered without a port: the default decides
+    auto desc = [&] {
+      return vf::fmt("parse_netloc(render_netloc(%s, %d) = %s, %s)%s: %s", brief(h).c_str(), port, brief(rendered).c_str(), dflt_name(d).c_str(),
+          err_at ? vf::fmt(" with errno = %d (%s) set %s", err, strerror(err), err_at == 1 ? "before render_netloc" : "between render_netloc and parse_netloc").c_str() : "",
+          oc == "ok" ? vf::fmt("returned (%s, %u)", brief(back.first).c_str(), (unsigned)back.second).c_str() : ("threw " + oc + " (" + what + ")").c_str());
+    };
+    if (oc != "ok") r.fail(err_at ? "netloc:throws-under-ambient-errno" : "netloc:throws", desc);
+    else if (back.first != h) r.fail("netloc:host-roundtrip", desc);
+    else if (port_demanded && back.second != port) r.fail(d.omit || d.d == 0 ? "netloc:roundtrip" : "netloc:roundtrip-with-default", desc);
+    else (port_demanded ? (port ? okp : ok0) : okhost)++;
+  };
+  std::vector<size_t> long_lens;
+  for (size_t n = 3; n <= 255; n++) long_lens.push_back(n);
+  for (size_t n : {256, 257, 1000, 4096, 65536}) long_lens.push_back(n);
+  auto long_host = [&](size_t n, int k) {
+    std::string h(n, 0);
+    for (size_t i = 0; i < n; i++) h[i] = k == 0 ? nocolon[(i * 7 + n) % nocolon.size()] : (k == 1 ? "1234567890"[i % 10] : "[]. -e+x"[(i + n) % 8]);
+    return h;
+  };
+  // (1) single-byte hosts and long hosts x 22 ports x 9 default_port forms
+  for (int c = 0; c < 255; c++)
+    for (int port : ports22)
+      for (const auto& d : dflts) {
+        if (!r.take()) continue;
+        one(std::string(1, nocolon[c]), port, d, 0, 0);
+      }
+  for (size_t n : long_lens)
+    for (int k = 0; k < 3; k++)
+      for (int port : ports22)
+        for (const auto& d : dflts) {
+          if (!r.take()) continue;
+          one(long_host(n, k), port, d, 0, 0);
+        }
+  // (2) all two-byte hosts x 4 ports x {omitted, 65535}
+  for (int a = 0; a < 255; a++)
+    for (int b = 0; b < 255; b++)
+      for (int port : {0, 1, 80, 65535})
+        for (int di : {0, 4}) {
+          if (!r.take()) continue;
+          std::string h(2, 0);
+          h[0] = nocolon[a];
+          h[1] = nocolon[b];
+          one(h, port, dflts[di], 0, 0);
+        }
+  // (3) ambient errno: 9 values x {before render, between render and parse} x single-byte hosts x 22 ports
+  for (int c = 0; c < 255; c++)
+    for (int port : ports22)
+      for (int err : errnos)
+        for (int at = 1; at <= 2; at++) {
+          if (!r.take()) continue;
+          one(std::string(1, nocolon[c]), port, dflts[(c + port) % 2 ? 0 : 4], at, err);
+        }
+  // (4) ports outside 0..65535 are not (host, port) pairs of the statement: executed, not compared
+  for (int port : {-1, -32768, 65536, 65537, 100000, INT_MAX, INT_MIN})
+    for (const char* h : {"h", "1", "[]"})
+      for (int di : {0, 4}) {
+        if (!r.take()) continue;
+        if (r.wants_desc()) r.desc(vf::fmt("parse_netloc(render_netloc(\"%s\", %d), %s) [port outside 0..65535: executed, not compared]", h, port, dflt_name(dflts[di]).c_str()));
+        vf::outcome([&] { lib_parse(phosg::render_netloc(h, port), dflts[di]); });
+        dc++;
+      }
+  r.hist["netloc:roundtrip(port 1..65535, any default_port form)"] += okp;
+  r.hist["netloc:roundtrip(port 0, default omitted or 0)"] += ok0;
+  r.hist["netloc:host round trip(port 0 with non-zero default: port is the default's, dont-care)"] += okhost;
+  r.hist["netloc:port outside 0..65535 (dont-care, executed)"] += dc;
+  r.bound = "hosts = every single byte but ':' (255) and every length 3..255 and {256, 257, 1000, 4096, 65536} of 3 fills (all non-colon bytes; digits; brackets/dots/spaces) x 22 boundary ports (0,1,2,9..11,99..101,255,256,999..1001,9999..10001,32767..32769,65534,65535) "
+            "x 9 default_port forms (omitted, 0, 1, 80, 65535, -1, 65536, INT_MAX, INT_MIN); all 65 025 two-byte colon-free hosts x ports {0,1,80,65535} x {omitted, 65535}; "
+            "single-byte hosts x 22 ports x errno in {0, ERANGE, EINVAL, EINTR, EDOM, EAGAIN, ENOMEM, EOVERFLOW, EILSEQ} set before render_netloc or between render_netloc and parse_netloc";
+}
+
+// State carried between calls: every ordered triple of calls within a function family, and every ordered pair
+// (run as first, second, first again) over all families together.  Every compared call must give what the statement
+// demands irrespective of what ran before it in the thread.
+VF_SECTION(histories, 16, 16, 180) {
+  r.note("histories");
+  bool reduced = !r.thorough();
+  std::vector<std::vector<Item>> fams(5);
+  add_decode_items(fams[0], reduced);
+  add_encode_items(fams[1]);
+  add_rot13_items(fams[2]);
+  add_escape_items(fams[3], reduced);
+  add_netloc_items(fams[4]);
+  uint64_t okt = 0, okp = 0;
+  std::vector<size_t> h(3);
+  for (const auto& items : fams) {
+    size_t n = items.size();
+    r.note(std::string("histories:") + items[0].fam);
+    for (size_t a = 0; a < n; a++)
+      for (size_t b = 0; b < n; b++)
+        for (size_t c = 0; c < n; c++) {
+          if (!items[c].compare && !items[b].compare) continue;  // nothing after the first call would be compared
+          if (!r.take()) continue;
+          h = {a, b, c};
+          if (run_history(r, items, h, "wrong-result-in-call-sequence")) okt++;
+        }
+  }
+  std::vector<Item> all;
+  {
+    std::vector<std::vector<Item>> full(5);
+    add_decode_items(full[0], false);
+    add_encode_items(full[1]);
+    add_rot13_items(full[2]);
+    add_escape_items(full[3], false);
+    add_netloc_items(full[4]);
+    for (auto& f : full)
+      for (auto& it : f) all.push_back(it);
+  }
+  r.note("histories:pairs");
+  for (size_t a = 0; a < all.size(); a++)
+    for (size_t b = 0; b < all.size(); b++) {
+      if (!r.take()) continue;
+      h = {a, b, a};
+      if (run_history(r, all, h, "wrong-result-in-call-sequence")) okp++;
+    }
+  r.hist["history:every compared call of an ordered triple within one family gives the demanded result"] += okt;
+  r.hist["history:A,B,A over all families together: every compared call gives the demanded result"] += okp;
+  if (r.shard == 0) r.counters["calls in the item set (all families)"] = all.size();
+  r.bound = vf::fmt("call items: base64_decode %zu (inputs: empty, valid, characters private to either alphabet, padded, bad length/char/padding, a 344-character encoding using all 64 characters; x {nullptr, URLSAFE, caller buffer std, caller buffer url}, overloads alternating), "
+                    "base64_encode %zu, rot13 %zu, escapers %zu (inputs x 8 call forms), netloc %zu (6 (host, port) round trips x 3 default forms + 10 raw texts incl. ports 65536, 10^20, 1e999, empty, non-numeric x 2 defaults, results not compared); "
+                    "every ordered triple within each family + every ordered pair over the %zu items of all families run as A,B,A; ambient errno in {0, ERANGE, EINVAL, EINTR} by case index at the start of each history",
+      fams[0].size(), fams[1].size(), fams[2].size(), fams[3].size(), fams[4].size(), all.size());
+}
+
+// The same calls in other execution contexts: inside a catch handler, inside a destructor that runs during stack
+// unwinding, on a fresh thread (twice), and under each ambient errno value.
+namespace {
+struct AtUnwind {
+  std::function<void()> f;
+  ~AtUnwind() { f(); }
+};
+}  // namespace
+VF_SECTION(contexts, 4, 4, 120) {
+  r.note("contexts");
+  std::vector<Item> all;
+  add_decode_items(all, false);
+  add_encode_items(all);
+  add_rot13_items(all);
+  add_escape_items(all, false);
+  add_netloc_items(all);
+  static const int errnos[] = {0, ERANGE, EINVAL, EINTR, EDOM, EAGAIN, ENOMEM, EOVERFLOW, EILSEQ};
+  static const char* ctx_name[] = {"inside a catch handler (std::runtime_error being handled)", "inside the handler of an invalid_argument thrown by base64_decode itself", "inside a destructor running during stack unwinding",
+      "on a fresh thread (called twice there)", "inside a catch handler with errno = ERANGE"};
+  uint64_t okc = 0;
+  for (size_t i = 0; i < all.size(); i++) {
+    const Item& it = all[i];
+    if (!it.compare) continue;
+    for (int ctx = 0; ctx < 5 + 9; ctx++) {
+      if (!r.take()) continue;
+      std::string cname = ctx < 5 ? std::string(ctx_name[ctx]) : vf::fmt("with errno = %d (%s) on entry", errnos[ctx - 5], strerror(errnos[ctx - 5]));
+      if (r.wants_desc()) r.desc(it.text + " " + cname);
+      r.nontriv();
+      std::string got, got2;
+      bool twice = false;
+      switch (ctx) {
+        case 0:
+          try {
+            throw std::runtime_error("in flight");
+          } catch (const std::runtime_error&) {
+            got = it.call();
+          }
+          break;
+        case 1:
+          try {
+            phosg::base64_decode(std::string("A"));
+            throw std::invalid_argument("base64_decode(\"A\") did not throw");
+          } catch (const std::invalid_argument&) {
+            got = it.call();
+          }
+          break;
+        case 2:
+          try {
+            AtUnwind u{[&] { got = it.call(); }};
+            throw std::runtime_error("unwinding");
+          } catch (const std::runtime_error&) {
+          }
+          break;
+        case 3: {
+          twice = true;
+          std::thread t([&] {
+            got = it.call();
+            got2 = it.call();
+          });
+          t.join();
+          break;
+        }
+        case 4:
+          try {
+            throw std::runtime_error("in flight");
+          } catch (const std::runtime_error&) {
+            errno = ERANGE;
+            got = it.call();
+          }
+          break;
+        default:
+          errno = errnos[ctx - 5];
+          got = it.call();
+          break;
+      }
+      if (got != it.want || (twice && got2 != it.want)) r.fail(std::string(it.fam) + ":wrong-result-in-context", [&] { return it.text + " " + cname + " gave " + brief(got != it.want ? got : got2) + ", demanded " + brief(it.want); });
+      else okc++;
+    }
+  }
+  r.hist["context:demanded result in every execution context"] += okc;
+  r.bound = "every compared call item of the histories section (all families) x {in a catch handler, in the handler of base64_decode's own invalid_argument, in a destructor during stack unwinding, on a fresh thread twice, in a catch handler with errno = ERANGE, "
+            "errno on entry in {0, ERANGE, EINVAL, EINTR, EDOM, EAGAIN, ENOMEM, EOVERFLOW, EILSEQ}}";
+}
+
+// Multi-function scenarios judged by their FINAL result only.
+VF_SECTION(chains, 8, 8, 120) {
+  r.note("chains");
+  uint64_t okc = 0;
+  std::string a256 = all256();
+  auto chain = [&](const std::string& x) {
+    if (r.wants_desc()) r.desc("chains on x = " + brief(x));
+    r.nontriv();
+    std::string stage, final_value;
+    auto bad = [&](const char* which) {
+      r.fail(std::string("chain:") + which, [&] { return vf::fmt("x = %s: chain %s ended in %s instead of x (last intermediate: %s)", brief(x).c_str(), which, brief(final_value).c_str(), brief(stage).c_str()); });
+    };
+    std::string oc = vf::outcome([&] {
+      // 1: URL-safe base64 -> escape_url(slash escaped) -> independent percent-decoder -> URL-safe decode
+      stage = phosg::escape_url(phosg::base64_encode(x, phosg::URLSAFE_ALPHABET), true);
+      auto pd = percent_decode(stage);
+      final_value = pd ? phosg::base64_decode(*pd, phosg::URLSAFE_ALPHABET) : std::string("(escape_url output is not percent-decodable)");
+    });
+    if (oc != "ok" || final_value != x) { if (oc != "ok") final_value = "exception " + oc; bad("base64url>escape_url>unescape>decode"); return; }
+    oc = vf::outcome([&] {
+      // 2: standard base64 (contains + / =) -> escape_url(defaulted) -> percent-decoder -> decode
+      stage = phosg::escape_url(phosg::base64_encode(x));
+      auto pd = percent_decode(stage);
+      final_value = pd ? phosg::base64_decode(*pd) : std::string("(escape_url output is not percent-decodable)");
+    });
+    if (oc != "ok" || final_value != x) { if (oc != "ok") final_value = "exception " + oc; bad("base64>escape_url>unescape>decode"); return; }
+    oc = vf::outcome([&] {
+      // 3: a host made of URL-safe base64 text (never contains a colon), port derived from x
+      int port = x.empty() ? 65535 : 1 + (static_cast<unsigned char>(x[0]) * 257 + static_cast<int>(x.size())) % 65535;
+      std::string host = "h" + phosg::base64_encode(x, phosg::URLSAFE_ALPHABET);
+      stage = phosg::render_netloc(host, port);
+      auto back = phosg::parse_netloc(stage);
+      final_value = back.second == port && !back.first.empty() ? phosg::base64_decode(back.first.substr(1), phosg::URLSAFE_ALPHABET) : vf::fmt("(port %u, host %s)", (unsigned)back.second, brief(back.first).c_str());
+    });
+    if (oc != "ok" || final_value != x) { if (oc != "ok") final_value = "exception " + oc; bad("base64url>render_netloc>parse_netloc>decode"); return; }
+    for (int ascii = 0; ascii < 2; ascii++) {
+      oc = vf::outcome([&] {
+        // 4: escape_controls -> rot13 -> rot13 -> independent C unescaper
+        std::string e = phosg::escape_controls(x, ascii);
+        std::string r1 = phosg::rot13(e.data(), e.size());
+        stage = phosg::rot13(r1.data(), r1.size());
+        auto un = c_unescape(stage);
+        final_value = un ? *un : std::string("(not unescapable)");
+      });
+      if (oc != "ok" || final_value != x) { if (oc != "ok") final_value = "exception " + oc; bad("escape_controls>rot13>rot13>unescape"); return; }
+    }
+    okc++;
+  };
+  vf::all_strings(a256, 2, [&](const std::string& x) {
+    if (!r.take()) return;
+    chain(x);
+  });
+  for (size_t n = 3; n <= 400; n++)
+    for (int k = 1; k < 4; k++) {
+      if (!r.take()) continue;
+      chain(pattern(k, n));
+    }
+  r.hist["chain:final value equals the input in all four chains"] += okc;
+  r.bound = "x = all byte strings of length 0..2 (65 793) and every length 3..400 of 3 fills: base64url>escape_url(slash)>percent-decode>base64url-decode; base64>escape_url>percent-decode>decode; host 'h'+base64url(x) with a port derived from x through render_netloc>parse_netloc>decode; "
+            "escape_controls(both flags)>rot13>rot13>C-unescape; only the final value is compared with x";
 }
 
 VF_MAIN()
